@@ -72,7 +72,7 @@ claim("C03", "affine equalities and value-flow bindings over AppendSignature / O
 
 claim("C16", "cut-sets on the CFG of the PKCS#7 parser for the optional elements and for attributes of unknown type; agreement between the attribute parser's stores (guarding attribute type, cryptobyte read primitive, field) and the attribute encoder's emitter shape; forward reachability from each read inside the signed attributes to a successful return without a look at the remainder",
       "Decides structural necessary conditions of accepting other tools' signatures: no parser function insists on an element PKCS#7 makes optional ([0] content, certificates, signed attributes; NULL parameters, present or absent); "
-      "a bare SignedData is accepted; a signed attribute of unknown type is kept on every path; every field the attribute parser fills is emitted again by Attributes.Marshal under the same attribute type and ASN.1 primitive and from one wire form; "
+      "a bare SignedData is accepted; elements behind the encrypted digest of a SignerInfo (unauthenticated attributes) are tolerated; equality of algorithm parameters with one value is never necessary for acceptance; a signed attribute of unknown type is kept on every path; every field the attribute parser fills is emitted again by Attributes.Marshal under the same attribute type and ASN.1 primitive and from one wire form; "
       "nothing consumed from the signed attributes is dropped (this rule found and led to the repair of parseAttributes); the signature is checked over that encoder's output. "
       "What OpenSSL / sbsign / sbvarsign actually emit, and byte equality of the re-encoding for a given blob, are not decided.", "DESIGN.md §4 C16")
 
